@@ -252,7 +252,7 @@ fn run_r(s: &c09::Scn, stream: bool, visitor: bool, p: PlanRef) -> Result<RObs, 
                     let meta = (f.name().to_string(), f.size(), f.compressed_size(), f.crc32(), method_id(f.compression()), f.last_modified().datepart(), f.last_modified().timepart(), f.header_start(), f.central_header_start(), f.data_start(), f.unix_mode());
                     let mut v = vec![];
                     let r = f.read_to_end(&mut v).map(|_| v).map_err(|e| e.to_string());
-                    self.0.entries.push(c09::EObs { meta, content: r, post_eof_zero: true });
+                    self.0.entries.push(c09::EObs { meta, content: r, post_eof_zero: true, extra: f.extra_data().to_vec(), comment: f.comment().to_string() });
                     Ok(())
                 }
                 fn visit_additional_metadata(&mut self, m: &zip::unstable::stream::ZipStreamFileMetadata) -> zip::result::ZipResult<()> {
